@@ -3,6 +3,7 @@ package checks
 
 import (
 	"fmt"
+	"math"
 	"strings"
 	"sync"
 	"time"
@@ -361,6 +362,25 @@ func Mixed() *TextSet {
 			if i%3 == 0 {
 				out = append(out, map[string]interface{}{"a": a, "b": 5.0, "c": []interface{}{a, 1.0}})
 				out = append(out, []interface{}{a, []interface{}{5.0}}, []interface{}{a, []interface{}{6.0}})
+			}
+		}
+		return NewTextSet(out)
+	})
+}
+
+// NumDocs: documents around numbers whose text, bits or magnitude are unusual: negative zero,
+// 1e21 (exponent form), 0.1+0.2, 2^53 and 2^53+1 (same float64), tiny and large magnitudes.
+func NumDocs() *TextSet {
+	return memoize("NumDocs", func() *TextSet {
+		negZero := math.Copysign(0, -1)
+		nums := []V{0.0, negZero, 1e21, 0.30000000000000004, 0.3, 9007199254740992.0, 9007199254740993.0, 1e-7, -1.5, 1.0, 100.0}
+		var out []V
+		for _, x := range nums {
+			out = append(out, x, []interface{}{x}, map[string]interface{}{"a": x}, []interface{}{1.0, x, 1.0}, map[string]interface{}{"a": []interface{}{x, x}})
+		}
+		for _, x := range nums[:6] {
+			for _, y := range nums[:6] {
+				out = append(out, []interface{}{x, y})
 			}
 		}
 		return NewTextSet(out)
